@@ -56,6 +56,8 @@ type G struct {
 	budget int
 	usesTr bool
 	names  int
+	// exclude names a variable that vars() must not return (see makeConditional)
+	exclude string
 	// Restricted counts catch clauses generated under the NoExitFromCatchWithFinally restriction
 	Restricted int
 }
@@ -78,7 +80,7 @@ func (g *G) vars(t Type, w bool) []vinfo {
 	var out []vinfo
 	for _, s := range g.scopes {
 		for _, v := range s {
-			if v.t == t && (!w || !v.ro) {
+			if v.t == t && (!w || !v.ro) && v.name != g.exclude {
 				out = append(out, v)
 			}
 		}
@@ -154,6 +156,23 @@ func isJump(n *N) bool {
 // makeConditional gives an unconditional jump a condition the checker cannot decide statically.
 func (g *G) makeConditional(n *N) {
 	if !isJump(n) {
+		// a compound statement all of whose paths jump is typed `never` as well
+		if n.K == "do" && n.S != "" {
+			// the variable the do expression initialises is not visible inside it
+			saved := g.exclude
+			g.exclude = n.S
+			defer func() { g.exclude = saved }()
+		}
+		for _, b := range n.B {
+			if n.K == "closure" || n.K == "defer" {
+				break
+			}
+			for _, s := range b {
+				if diverges(s) {
+					g.makeConditional(s)
+				}
+			}
+		}
 		return
 	}
 	has := (n.K == "return" && len(n.C) > 1) || (n.K != "return" && len(n.C) > 0)
@@ -168,6 +187,37 @@ func (g *G) makeConditional(n *N) {
 		return
 	}
 	n.C = append(n.C, cond)
+}
+
+// diverges reports whether every path through the statement ends in a jump
+// (the checker then types the statement, and what follows it, as `never`).
+func diverges(n *N) bool {
+	switch n.K {
+	case "break", "continue", "throw":
+		return len(n.C) == 0
+	case "return":
+		return len(n.C) <= 1
+	case "do":
+		nb := 1 + len(n.X)
+		for i := 0; i < nb; i++ {
+			if !blockDiverges(n.B[i]) {
+				return false
+			}
+		}
+		return true
+	case "if", "unless":
+		return len(n.B) > 1 && len(n.B[1]) > 0 && blockDiverges(n.B[0]) && blockDiverges(n.B[1])
+	}
+	return false
+}
+
+func blockDiverges(b []*N) bool {
+	for _, s := range b {
+		if diverges(s) {
+			return true
+		}
+	}
+	return false
 }
 
 func (g *G) nonConstCond() *N {
